@@ -857,6 +857,16 @@ def check_C03(chk, tier, seed):
             chk.corr_break("decoder observation differs from the model", dict(case=c, kind=kind, impl=short(im, 3000), model=short(mobs, 3000)))
         if i % max(1, len(fam) // 6) == 0:
             chk.sample(dict(case=c, kind=kind, impl=short(im, 120), P=ok))
+    # eight threads decoding one well-formed frame of 20 nested groups (16 when the limit is lower) at the same time, 3000 times each
+    depth = min(20, eng.lim or 16)
+    nf = gen.nested_groups_frame(depth, [d for d in eng.dicts["g"].live() if d["ty"] == "grp" and d["vendor"] is None][0]["code"])
+    o = core.run_sharded([eng.harness, "codec"], eng.prelude, [f"NESTMT g 8 3000 {xb(nf)}"], shards=1, timeout=600)[0]
+    chk.case("NESTMT g 8 3000", True)
+    chk.validated += 1
+    chk.count("nested-frames-on-several-threads")
+    if o != "NESTMT decodes=24000 refused=0":
+        chk.violation(f"a well-formed frame of {depth} nested groups was refused when several threads decoded such frames at the same time: " + short(o, 200),
+                      dict(case=f"NESTMT g 8 3000 {xb(nf)}", impl=short(o)))
     chk.rule = (f"{len(frames)} reference-encoded corpus frames; per frame: as is, 3 rewrites of padding octets/reserved bits (must be accepted, same tree), "
                 "length-field rewrites (message, AVP, nested AVP: 0..64, true+-{1,2,3,4,8}, 2^24-1 ...), structure-aware lies, havoc, truncations, "
                 "random octets; one-AVP frames with ill-formed and well-formed UTF-8 sequences at EVERY offset of strings of 1..33, 63..65 octets (UTF8String and "
@@ -1237,6 +1247,20 @@ def check_C18(chk, tier, seed):
         if i % 2 == 0:
             hist.append(hist_line("g", ("DEC", hostile), []))
         hist.append(hist_line(did, ("DEC", fr), ops))
+    # nine or more top-level AVPs in ascending code order with runs of one code (different values): get_avp(code) is the FIRST of its run
+    asc = sorted([d for d in gd.live() if d["ty"] == "u32" and d["vendor"] is None] + [d for d in gd.live() if d["ty"] == "oct" and d["vendor"] is None and 1000 <= d["code"] < 1100], key=lambda d: d["code"])
+    if asc:
+        d0 = asc[0]
+        mk18 = lambda d, j: ("ADDAVP", d["code"], None, 0, ("L", ("u32", 100 + j) if d["ty"] == "u32" else ("oct", b"v%d" % j)))
+        for runs in ((3, 1, 1, 1, 1, 1, 1), (1, 1, 2, 1, 1, 1, 1, 1), (2, 2, 2, 2, 2), (1, 1, 1, 1, 1, 1, 1, 3)):
+            ops, j = [], 0
+            for idx, n in enumerate(runs):
+                d = asc[idx % len(asc)] if len(asc) > idx else d0
+                for _ in range(n):
+                    ops.append(mk18(d, j))
+                    j += 1
+            ops.sort(key=lambda o: o[1])
+            hist.append(hist_line("g", ("NEW", 272, 4, 0x80, 1, 2), ops))
     # decoded starting points of 8 ... 8.3 KiB whose LAST AVP is a long OctetString / DiameterURI (patterned, not zeros): the readers
     # the decoder thread rotates through include a buffered one whose buffer ends inside that value
     odef18 = [d for d in gd.live() if d["ty"] == "oct" and d["vendor"] is None and 1000 <= d["code"] < 1100][0]
